@@ -403,6 +403,9 @@ func init() {
 		}
 		data := m.mem[:m.n:m.n]
 		y := roaring.New()
+		if old, ok := e.bm[a[0]]; ok {
+			y = old // a previously used receiver is loaded again
+		}
 		n, _, err := decodeInto(e, y, a[1], data, 0)
 		if err != nil {
 			return "err:" + spaceless(err.Error())
